@@ -85,18 +85,17 @@ def judge(s, ev, res):
     except Exception as e:
         return [common.violation("C10.structure", "snapshot-raises:" + common.exc_failure(e), {}, {}, repr(e))], False
     res.oracles["structure"] += 1
-    if ev[0] == "setc" or ev[0] == "set":
-        under = tuple(ev[2])
+    if ev[0] in ("setc", "set", "bind2"):
+        unders = [tuple(ev[2])] + ([tuple(ev[3])] if ev[0] == "bind2" else [])
         a, b = snap0, snap1
-        if ev[0] == "setc":
+        if ev[0] in ("setc", "bind2"):
             # the assigned value decides every reference at or below the assigned path (plain data creates new targets, None
             # unbinds): those records, and everything beyond such a reference, are judged by the value re-read above
             def cut(sn):
                 out = {}
                 for k, v in sn.items():
-                    if k[: len(under)] == under:
-                        if v[0] in ("ref", "uref", "null") or any(p in ("*", "#") for p in k[len(under):]):
-                            continue
+                    if any(k[: len(under)] == under and (v[0] in ("ref", "uref", "null") or any(p in ("*", "#") for p in k[len(under):])) for under in unders):
+                        continue
                     out[k] = v
                 return out
 
